@@ -1,6 +1,7 @@
 package main
 
 import (
+	"strings"
 	"encoding/json"
 	"fmt"
 	"os"
@@ -38,6 +39,18 @@ func main() {
 		fmt.Fprintf(os.Stderr, "loaded in %.1fs\n", time.Since(t0).Seconds())
 		ex := eng.NewExplorer(p, os.Args[2])
 		for _, k := range os.Args[3:] {
+			if strings.HasPrefix(k, "redirect:") {
+				parts := strings.SplitN(strings.TrimPrefix(k, "redirect:"), "=", 2)
+				if ex.Redirects == nil {
+					ex.Redirects = map[string]string{}
+				}
+				ex.Redirects[parts[0]] = parts[1]
+				continue
+			}
+			if k == "noifconv" {
+				ex.NoIfConv = true
+				continue
+			}
 			ex.Known[k] = true
 		}
 		if err := ex.Run(); err != nil {
@@ -47,7 +60,7 @@ func main() {
 		out := map[string]interface{}{
 			"paths": ex.Paths, "assume_end": ex.PathsAssumeEnd, "violations": ex.Violations, "known": ex.KnownHits,
 			"inconclusive": ex.Inconclusive, "queries": ex.Queries, "sat": ex.QSat, "unsat": ex.QUnsat, "unknown": ex.QUnknown,
-			"solver_s": ex.SolverTime.Seconds(), "wall_s": ex.Wall.Seconds(), "asserts": ex.AssertsReached, "funcs": ex.SortedFuncs(),
+			"ifconv": ex.IfConv, "forks": ex.Forks, "solver_s": ex.SolverTime.Seconds(), "wall_s": ex.Wall.Seconds(), "asserts": ex.AssertsReached, "funcs": ex.SortedFuncs(),
 			"lazy_globals": ex.LazyGlobals, "host_calls": ex.HostCalls, "samples": len(ex.Samples), "oblig": ex.ObligChecked, "steps": ex.Steps,
 		}
 		b, _ := json.MarshalIndent(out, "", " ")
